@@ -81,6 +81,12 @@ CHECKS.update({
     "C14": dict(technique="TLA+ module Models.tla over ProtoSchema.tla (enums, messages and field types generated at check time from the text of api.proto): TLC evaluates the table statements (enum values / names / no aliases, field-name mirror) on a snapshot of the model enums and classes and enumerates the conversion case analysis message x field x value class with the demanded result; every case materialised on the real from_pb / to_dict / from_dict", text="Exhaustive over the finite tables (29 enums, 57 model classes) and over the case space of 1 455 field x value-class cases (every known enum number, unknown numbers, mixed lists, float32 patterns incl. ties, powers of ten, sub-normals, signed zero, infinities, NaN) with a to_dict/from_dict round trip per case.", design="§3.9, §6 C14", note="Known finding: UpdateCommand.INSTALL names wire value 1 (UPDATE). The float oracle is exact decimal rounding of the float32 value; nested sub-messages are only required not to fail. " + TB),
 })
 
+for _pid in ("C16", "C17", "C18", "C19"):
+    CHECKS[_pid]["technique"] += ("; TLC is also the generator: GenMode histories (one per distinct state of a bounded instance, shortest first) are "
+                                  "translated to environment events, run on the real objects and validated as traces")
+CHECKS["C07"]["technique"] += "; the application's stop callback is also counted at the client level (Client.tla nstop) in traces of the real APIClient"
+CHECKS["C09"]["technique"] += "; liveness slice (EventuallySettled under weak fairness); outcomes of the Bluetooth operation families audited for raw exceptions"
+
 NOT_YET = {}
 
 
